@@ -1,46 +1,10 @@
 import Driver.Seq
 import GoframeModel.Ops.SqlRead
 import GoframeModel.Std.Csv
+import GoframeModel.Spec.SqlRead
 /-  `sqlr` engine (C14): FromSQL* against a configured result set. -/
 namespace Goframe.Driver
 open Goframe SqlRead
-
-/-- C14 as a function of the result set: expected frame, or `none` = must be an error -/
-def specFromSQL (ω : Oracle) (nilHandle : Bool) (query : Str) (queryErr : Bool) (rs : ResultSet) (o : Opts) : Option Frame :=
-  let tys := rs.types.map scanTyOf
-  let isNull (c : Cell) : Bool := c == .nil
-  let anyNull := rs.rows.any (fun r => r.any isNull)
-  let handlerOk := match o.handler with
-    | .dflt => true
-    | .byColumn _ => true
-    | .named s => s == sNilH || s == sZero || s == sSkip
-    | .badType => false
-  let skipping := match o.handler with
-    | .named s => s == sSkip
-    | _ => false
-  let scanOk := rs.rows.all (fun r => scanRowOk tys r)
-  let dup := Frame.hasDup rs.names
-  if nilHandle || query.isEmpty || queryErr || rs.errAt.isSome || !scanOk || dup || (anyNull && !handlerOk) then none
-  else
-    let kept := if skipping then rs.rows.filter (fun r => !(r.any isNull)) else rs.rows
-    -- cell: typed value, or the policy's value for NULL; then date parsing for listed columns
-    let cellOf (name : Str) (ty : ScanTy) (v : Cell) : Option Cell :=
-      let base : Cell := if isNull v then
-          (match handleNull o.handler name ty with
-           | .ok (.value c) => c
-           | _ => .nil)
-        else v
-      if o.parseDates.contains name then
-        (match parseDate ω base with
-         | .ok c => some c
-         | _ => none)
-      else some base
-    let cells := kept.map (fun r => (rs.names.zip (tys.zip r)).map (fun (n, ty, v) => cellOf n ty v))
-    if cells.any (fun r => r.any Option.isNone) then none
-    else
-      let rows : List (List Cell) := cells.map (fun r => r.map (fun c => c.getD .nil))
-      some ((rs.names.zipIdx.map (fun (n, j) =>
-        (n, ({ name := n, data := rows.map (fun r => r.getD j .nil) } : Col)))).foldl (fun acc kc => Frame.insertCol kc acc) [])
 
 def checkSqlr : P String := do
   let tab ← pOracle
@@ -80,16 +44,10 @@ def checkSqlr : P String := do
   let mut corr := "ok"
   if status == "panic" then c14 := "fail:panic"
   if partialFrame then c14 := firstFail c14 "fail:partial-frame-with-error"
-  -- a row that is skipped for a NULL but also holds an unparsable date in a listed column: the property
-  -- does not say which wins (the code reports the date error if it comes first); not judged by the spec
-  let skipping := match handler with
-    | .named s => s == sSkip
-    | _ => false
-  let tys := types.map scanTyOf
-  let ambiguous := skipping && rows.any (fun r => r.any (· == .nil) &&
-    (names.zip (tys.zip r)).any (fun (n, _, v) => pd.contains n && v != .nil && !(parseDate ω v).isOk))
+  -- rows skipped for a NULL that also hold an unparsable listed date are not judged by the spec (Spec.ambiguous)
+  let ambiguous := Spec.ambiguous ω rs o
   if !ambiguous then
-   match specFromSQL ω nilHandle query queryErr rs o, res with
+   match Spec.specFromSQL ω nilHandle query queryErr rs o, res with
    | some e, some x => if !frameApprox e x then c14 := firstFail c14 "fail:frame"
    | none, none => pure ()
    | some _, none => c14 := firstFail c14 "fail:spurious-error"
